@@ -409,7 +409,13 @@ func (w *c19World) step(op string) *core.Fail {
 	// invariants after the step
 	for i := range w.P {
 		if alpha.PointRaw(&w.P[i]) != w.praw[i] {
-			return core.Failf("after %q the source point P%d changed", op, i)
+			// a representation-only rewrite by an accessor is tolerated here
+			// (it matters for C18); the value must be intact
+			a, b := c19Sources()
+			if f := pointMatches(&w.P[i], []ref.Pt{a, b}[i]); f != nil {
+				return core.Failf("after %q the source point P%d changed: %s", op, i, f.Msg)
+			}
+			w.praw[i] = alpha.PointRaw(&w.P[i])
 		}
 	}
 	if alpha.ScalarRaw(&w.S) != w.sraw || alpha.LimbsOf(&w.E) != w.eraw {
